@@ -1763,6 +1763,11 @@ func (n *node) spawn(factory gen.ProcessFactory, options gen.ProcessOptionsExtra
 
 func (n *node) unregisterProcess(p *process, reason error) {
 	n.processes.Delete(p.pid)
+	if p.registered.Load() {
+		// release the name before the exit signals are routed: a supervisor
+		// restarting this process must be able to register the name again
+		n.names.Delete(p.name)
+	}
 	lib.VerifPoint("proc.unreg.deleted", p.pid)
 	n.RouteTerminatePID(p.pid, reason)
 
@@ -1773,7 +1778,6 @@ func (n *node) unregisterProcess(p *process, reason error) {
 	n.log.Trace("...unregisterProcess %s", p.pid)
 
 	if p.registered.Load() {
-		n.names.Delete(p.name)
 		pname := gen.ProcessID{Name: p.name, Node: n.name}
 		lib.VerifPoint("proc.unreg.name", pname)
 		n.RouteTerminateProcessID(pname, reason)
